@@ -19,6 +19,7 @@ type rawRPC struct {
 	shape    string
 	msgs     []int // sizes still to send
 	cur      int   // bytes of the current message still to send (0: none in progress)
+	ctxProbed bool
 	first    bool
 	half     bool
 	dead     bool
@@ -87,6 +88,16 @@ func (d *rawClientDriver) Next(w *World, step int) string {
 		}
 		if ps > 0 {
 			return "ds t=0"
+		}
+		// once the tunnel's serving call has returned, nothing of it may stay live: ask every
+		// handler that is still running for the state of its context
+		if w.serveReturned(0) {
+			for _, r := range d.rpcs {
+				if h := w.hand(r.r); h != nil && !r.hRet && !r.ctxProbed {
+					r.ctxProbed = true
+					return fmt.Sprintf("hctx r=%d", r.r)
+				}
+			}
 		}
 		for _, r := range d.rpcs {
 			if h := w.hand(r.r); h != nil && !r.hRet && !h.hw.isBusy() {
